@@ -2,7 +2,7 @@
    nat, positive, N, Z stay as extracted inductives; no Extract Constant /
    Extract Inductive directives of our own. *)
 Require Import Coq.extraction.Extraction Coq.extraction.ExtrOcamlBasic.
-From Gdsl.Model Require Import Base NodeOps Search Callback.
+From Gdsl.Model Require Import Base NodeOps Search Callback Container Scc Serde.
 Extraction Language OCaml.
 Set Extraction KeepSingleton.
 Extraction "model.ml"
@@ -15,5 +15,8 @@ Extraction "model.ml"
   Search.search_find Search.search_path Search.order_nodes Search.order_edges Search.edge_loop
   Search.node_eqb Search.node_cmp Search.path_nodes Search.heap_push Search.heap_pop
   Callback.mk_cb Callback.cb0
+  Container.g_get Container.g_contains Container.g_insert Container.g_remove Container.g_len Container.g_is_empty
+  Container.g_iter Container.g_roots Container.g_leaves Container.g_orphans Container.g_to_dot Container.g_to_dot_attr
+  Scc.scc Serde.decompose Serde.rebuild Serde.deserialize
   Z.leb
   N.eqb N.of_nat N.to_nat Z.eqb Z.compare N.compare.
